@@ -1,20 +1,28 @@
-"""Regenerate every coq/gen/*_gen.v from /repo (used by setup.sh; each check re-runs its own)."""
+"""Regenerate every coq/gen/*_gen.v from /repo and rewrite coq/_CoqProject (used by setup.sh; each check
+re-runs its own translators).  Translators are discovered from the property modules: every
+harness/props/cXX.py may define  GENERATED = [(translator module, function name, "gen/X_gen.v"), ...]."""
 from __future__ import annotations
 
+import glob
 import importlib
 import os
-import shutil
 
-from harness.common import COQ, REPO
+from harness.common import COQ, REPO, VERIF, write_coqproject
 
-# (translator module, function, generated file)
-GENERATED = [
-    ("harness.translate.status_table", "translate", "gen/StatusTable_gen.v"),
-]
+
+def generated() -> list[tuple[str, str, str]]:
+    out = []
+    for f in sorted(glob.glob(os.path.join(VERIF, "harness", "props", "c[0-9][0-9].py"))):
+        mod = importlib.import_module("harness.props." + os.path.basename(f)[:-3])
+        for g in getattr(mod, "GENERATED", []):
+            if g not in out:
+                out.append(g)
+    return out
 
 
 def main() -> None:
-    for mod, fn, rel in GENERATED:
+    os.makedirs(os.path.join(COQ, "gen"), exist_ok=True)
+    for mod, fn, rel in generated():
         path = os.path.join(COQ, rel)
         default = os.path.join(COQ, "gen_default", os.path.basename(rel))
         try:
@@ -26,6 +34,7 @@ def main() -> None:
         if old != text:
             with open(path, "w") as f:
                 f.write(text)
+    write_coqproject()
 
 
 if __name__ == "__main__":
